@@ -290,7 +290,7 @@ static void run_case(uint64_t idx)
     nthr = 2 + vrt_below(&g, 3) + (idx % 4 == 0 ? 4 * vrt_below(&g, 2) : 0);
     if (nthr > MAXT) nthr = MAXT;
     yield_bias = 3 + vrt_below(&g, 8);
-    rounds = vrt_thorough ? 600 : 250;
+    rounds = vrt_thorough ? 4000 : 1000;
     vrt_case_note("%d real threads, %d rounds, random scripts of 1-%d ops per round, yield bias 1/%d", nthr, rounds, MAXOPS, yield_bias);
     atomic_store(&phase_go, 0); atomic_store(&phase_done, 0); atomic_store(&quit, 0); atomic_store(&mt_failed, 0);
     for (t = 0; t < nthr; t++) {
@@ -334,7 +334,7 @@ static void run_case(uint64_t idx)
             while (atomic_load(&phase_done) < nthr) {
                 if (atomic_load(&mt_failed)) abandon_case();
                 sched_yield();
-                if (++spins > 400000000ull) { VRT_COUNT("mt.rounds.hang-inconclusive"); atomic_store(&quit, 1); vrt_fail("harness.mt.hang", "round did not finish (inconclusive)"); }
+                if (++spins > 2000000000ull) vrt_inconclusive("real-thread round did not finish after 2*10^9 yields (wall-clock hang: not a verdict; deadlocks are decided by the controlled scheduler)");
             }
         }
         if (atomic_load(&mt_failed)) abandon_case();
